@@ -300,6 +300,18 @@ def run_property(pid, tier="quick", seed=0, only=None, jobs=None, no_replay=Fals
                    "rerun": "cd /verif && ./check %s --tier quick --only %s" % (pid, a["fn"])}
             with open(rep_path, "w") as f:
                 json.dump(rec, f, indent=1, default=repr)
+            if kf is not None and kf.get("assume_not") and fc is not None:
+                # the finding is identified by an input class: the same obligation must hold outside it
+                o2 = dict(opts)
+                o2["extra_requires"] = {a["fn"]: ["not (%s)" % kf["assume_not"]]}
+                r2 = _worker((pid, a["fn"], o2))
+                still = [o for o in r2["obligations"] if o["name"] == name and o["status"] == "refuted"]
+                if still:
+                    kf = None
+                    ob = still[0]
+                    out = native_replay(C, pid, fc, ob)
+                    reproduced, why = judge_replay(ob, out)
+                    why = "fails also outside the known input class: " + why
             if kf is not None:
                 status["known"].append((name, kf, rep_path))
             elif ob["info"].get("weak") and not reproduced:
